@@ -1,9 +1,12 @@
 #!/bin/sh
 # mutrun.sh <worktree-with-change-applied> <Cxx> [tier]  - run a check from a private copy of /verif
 # against another checkout of the repository, without touching /repo or /verif's work directory.
-set -e
+# Every invocation uses its own copy (removed afterwards) so that concurrent runs do not collide.
 WT="$1"; PID="$2"; TIER="${3:-quick}"
-COPY=/tmp/vmut
-mkdir -p $COPY
-rsync -a --delete --exclude .git --exclude 'work/*/cases.txt' --exclude 'work/*/impl.txt' --exclude 'work/*/model.txt' --exclude replays --exclude evidence /verif/ $COPY/
+COPY=$(mktemp -d /tmp/vmut.XXXXXX)
+rsync -a --exclude .git --exclude 'work/*/cases.txt' --exclude 'work/*/impl.txt' --exclude 'work/*/model.txt' --exclude 'work/mut' --exclude replays --exclude evidence /verif/ $COPY/
 cd $COPY && VERIF_REPO="$WT" ./run.sh "$PID" "$TIER"
+RC=$?
+mkdir -p /tmp/vmut-replays && cp -f $COPY/replays/* /tmp/vmut-replays/ 2>/dev/null
+cd / && rm -rf $COPY
+exit $RC
